@@ -30,6 +30,11 @@ around the hierarchy; h / h2 for the argument and the outside component) and the
 object, an attribute holding an object, and attributes holding None, 0, "", False, [], an object with truth value
 False - fed into parameters whose default is not None, so that "not applied" and "delivered None" differ).
 
+A third axis is the MODE of the instantiate call: instantiate_classes(cfg, instantiate_groups=False) (class groups stay
+configuration, everything class-typed is instantiated) on parsers whose links run between class-typed components
+(subclass arguments, class-typed arguments, the class-typed child / grandchild of a group that itself is left alone):
+the ordering, delivery and exactly-once guarantees are the same, and a class group must not be constructed.
+
 For hier / within the reference is the dependency graph "link edges + nesting edges" (an object is built before the
 object whose constructor receives it): a link that makes this graph cyclic must be refused with ValueError when it
 is added, every other link must be accepted, and instantiation is judged by the constructor log (each class exactly
@@ -46,14 +51,15 @@ META = {
     "engine": "bounded exhaustive link-graph enumeration on the real DirectedGraph / ArgumentParser (mc/checks/c16.py)",
     "technique": "exhaustive enumeration of all small digraphs (DirectedGraph vs. independent Kahn check) and of all "
     "small link graphs x component kinds x declaration orders x link orders x component-name relations x source "
-    "value kinds through real parsers, judged by a constructor log and a reference dependency graph",
+    "value kinds x mode of the instantiate call (with / without class groups) through real parsers, judged by a "
+    "constructor log and a reference dependency graph",
     "level_text": "Every digraph on up to 5 labelled nodes is given to the real DirectedGraph in several insertion "
     "orders and its answer (order or ValueError) is validated by an independent acyclicity/order check; every DAG "
     "on up to 3 (quick) / 4 (thorough) components is realised as a real parser with instantiation links in every "
     "declaration order and instantiated, and a constructor log decides exactly-once construction, "
     "source-before-target order and identity of the fed value; every cycle-closing link must be refused when added; "
     "instantiation is repeated on the same parser, also after an instantiation aborted at each possible constructor / "
-    "compute_fn call. "
+    "compute_fn call, and done with instantiate_groups=False on parsers whose links run between class-typed components. "
     "The verdict is exhaustive within these bounds; nothing is sampled.",
     "level_note": "Trusted: the 15-line bitmask Kahn check, the fixture classes' constructor log, the reference "
     "dependency graph of the hier / within families (link edges + nesting edges). Graphs on more than 5 nodes / 4 "
@@ -287,11 +293,17 @@ def setup_dag(case, F):
         "parents": [],
         "params": {nodes[i]: ["p0", "p1", "p2", "p3"] + (["d0", "d1", "d2", "d3"] if kinds[i] != "T" else []) for i in range(k)},
         "tags": lambda links: [],
+        "groups": {nodes[i] for i in range(k) if kinds[i] in "GT"},
     }
 
 
 # ---- family "hier": Root -> child -> grandchild plus two components ----------------------------------
 # nodes: "sa", "sb" (components), "L0" root, "L1" root.child, "L2" root.child.grandchild
+
+
+def hier_groups(root_kind, src_kinds):
+    """Nodes of a hier case that are class groups (root.child / grandchild are class-typed arguments in any case)."""
+    return {n for n, kind in (("L0", root_kind), ("sa", src_kinds[0]), ("sb", src_kinds[1])) if kind == "G"}
 
 
 def setup_hier(case, F):
@@ -349,6 +361,7 @@ def setup_hier(case, F):
         "parents": [("L0", "child", "L1"), ("L1", "grandchild", "L2")],
         "params": {"sa": ["pr", "dr"], "sb": ["pr", "dr"], **{lv: ["pa", "pb", "da", "db"] for lv in ("L0", "L1", "L2")}},
         "tags": tags,
+        "groups": hier_groups(rk, sk),
     }
 
 
@@ -397,6 +410,7 @@ def setup_within(case, F):
         "parents": [("H", "a", "a"), ("H", "b", "b"), ("H", "c", "c")],
         "params": {**{x: ["qa", "qb", "qc", "qs", "da", "db", "dc", "ds"] for x in "abc"}, "H": ["qs", "ds"], "X": ["pr", "dr"]},
         "tags": _within_tags,
+        "groups": {"X"} if xk == "G" else set(),
     }
 
 
@@ -486,13 +500,18 @@ def check_fed(F, Namespace, link, received, objs, devs):
             return
 
 
-def check_instantiation(F, Namespace, fam, links, init, log):
-    """Judge one instantiate_classes call by the constructor log.  Returns [(symptom, detail)]."""
+def check_instantiation(F, Namespace, fam, links, init, log, absent=()):
+    """Judge one instantiate_classes call by the constructor log.  Returns [(symptom, detail)].
+    absent: nodes that must NOT be constructed (class groups under instantiate_groups=False; no link touches them)."""
     devs = []
     names = [e[0] for e in log]
     objs, index = {}, {}
     for node, cname in fam["nodes"].items():
         hits = [i for i, e in enumerate(log) if e[0] == cname]
+        if node in absent:
+            if hits:
+                devs.append(("class-group-constructed", f"{cname} ({node}) constructed although instantiate_groups=False; log {names}"))
+            continue
         if not hits:
             devs.append(("class-never-constructed", f"{cname} ({node}) not constructed; log {names}"))
         elif len(hits) > 1:
@@ -537,6 +556,17 @@ def run_e2e(case):
     layer = case["layer"]
     fam = SETUP[layer](case, F)
     stats = {"calls": 0}
+    # mode of the instantiate call: case["groups"] == 0 -> instantiate_classes(cfg, instantiate_groups=False): the class
+    # groups stay configuration, everything class-typed (subclass arguments, class-typed arguments, class-typed
+    # parameters nested in a group) is instantiated and owes the same guarantees.  The enumeration only pairs this
+    # mode with link sets that do not touch a class group.
+    no_groups = case.get("groups") == 0
+    absent = fam["groups"] if no_groups else set()
+    inst_kw = {"instantiate_groups": False} if no_groups else {}
+    touched = {n for l in case["links"] for n in [l["t"]] + [x for x, _ in l["s"]]}
+    assert not (touched & absent), "harness: instantiate_groups=False case with a link that touches a class group"
+    mode = "instantiate_groups-false:" if no_groups else ""
+    stats["no_groups"] = int(no_groups)
     parser, args = fam["build"]()
     stats["calls"] += len(case["decl"])
 
@@ -587,7 +617,7 @@ def run_e2e(case):
     fault = case.get("fault")
     if fault is None:
         # instantiating the same parsed configuration twice must behave the same
-        rounds = [("", False), ("second-instantiation:", False)]
+        rounds = [(mode, False), (mode + "second-instantiation:", False)]
     else:
         # operation history with an ABORTED instantiation on the same parser: one constructor / compute_fn call of
         # the first instantiate_classes raises (what happens in that call is not judged); afterwards the same
@@ -596,14 +626,14 @@ def run_e2e(case):
         F.arm(*fault)
         stats["calls"] += 1
         try:
-            parser.instantiate_classes(cfg)
+            parser.instantiate_classes(cfg, **inst_kw)
         except Exception:  # noqa: BLE001
             stats["aborted"] = 1
             stats["aborted_late"] = int(len(F.LOG) >= 1)
         finally:
             stats["fault_fired"] = F.FAULT["fired"]
             F.arm()
-        rounds = [("after-aborted-instantiation:", False), ("after-aborted-instantiation:", True)]
+        rounds = [(mode + "after-aborted-instantiation:", False), (mode + "after-aborted-instantiation:", True)]
     for pre, reparse in rounds:
         if reparse:
             stats["calls"] += 1
@@ -615,11 +645,11 @@ def run_e2e(case):
         F.reset()
         stats["calls"] += 1
         try:
-            init = parser.instantiate_classes(cfg)
+            init = parser.instantiate_classes(cfg, **inst_kw)
         except Exception as ex:  # noqa: BLE001
             devs.append((f"{pre}instantiate-raises:{type(ex).__name__}", str(ex)[:300]))
             break
-        devs += [(pre + s, d) for s, d in check_instantiation(F, Namespace, fam, added, init, list(F.LOG))]
+        devs += [(pre + s, d) for s, d in check_instantiation(F, Namespace, fam, added, init, list(F.LOG), absent)]
         if devs:
             break
         stats["order"] = ">".join(e[0] for e in F.LOG)
@@ -700,9 +730,14 @@ def link_orders(links, level):
 PREFIX_NAMES = ("prefix", "prefix_", "dotted")
 
 
+def _fill(row, n, defaults):
+    """Plan rows may omit trailing optional fields: complete a row to n fields from the defaults of the optional ones."""
+    return row + defaults[len(row) - (n - len(defaults)) :]
+
+
 def dag_plan(k, quick):
     """Rows (kinds, variant, declaration orders: 'all' | 'few' | 'first', link-order level (-1: as listed only), also
-    cycle-closing links [, name scheme, target parameters 'p' | 'd'])."""
+    cycle-closing links [, name scheme, target parameters 'p' | 'd' [, 0 = instantiate_groups=False]])."""
     gs = ["".join(p) for p in itertools.product("GS", repeat=k)]
     gsa = ["".join(p) for p in itertools.product("GSA", repeat=k)]
     rows = []
@@ -722,6 +757,10 @@ def dag_plan(k, quick):
         for kinds in gsa:
             for v in VARIANTS[:4] + VALUE_VARIANTS:
                 rows.append((kinds, v, "first" if quick else "all", 0, False, "plain", "d"))
+        # mode of the call: instantiate_groups=False, all class-typed kind pairs x all shapes
+        for kinds in ("".join(p) for p in itertools.product("SA", repeat=k)):
+            for v in VARIANTS:
+                rows.append((kinds, v, "all", 0, False, "plain", "p", 0))
     elif k == 3 and quick:
         for kinds in gs + ["AAA", "AGA"]:
             rows.append((kinds, "whole", "all", 0, True))
@@ -736,6 +775,12 @@ def dag_plan(k, quick):
         # None / falsy attribute values inside every DAG (first and last declaration order)
         rows += [("SGS", "attr:n", "few", -1, False, "plain", "d"), ("GSG", "attr:n+fn", "few", -1, False, "plain", "d")]
         rows += [("SSS", "multi:n", "few", -1, False, "plain", "d"), ("ASA", "attr:z", "few", -1, False, "plain", "d")]
+        # instantiate_groups=False: every DAG x every declaration order over class-typed components; with a class group
+        # among them (G: stays configuration, only link sets that do not touch it)
+        rows += [(kinds, "whole", "all", -1, False, "plain", "p", 0) for kinds in ("SSS", "SAS", "SGS", "GSS", "SSG")]
+        rows += [(kinds, "whole", "few", -1, False, "plain", "p", 0) for kinds in ("AAA", "ASA")]
+        rows += [("SSS", "attr+fn", "all", -1, False, "plain", "p", 0), ("SAS", "multi", "all", -1, False, "plain", "p", 0)]
+        rows += [("ASA", "mixed", "all", -1, False, "plain", "p", 0)]
     elif k == 3:
         for kinds in gsa:
             simple = kinds in gs
@@ -746,10 +791,14 @@ def dag_plan(k, quick):
             rows += [("GSG", "attr+fn", "all", -1, False, names, "p")]
         for kinds in ("SSS", "GSG", "SGS", "ASA"):
             rows += [(kinds, v, "few", -1, False, "plain", "d") for v in VALUE_VARIANTS]
+        for kinds in ["".join(p) for p in itertools.product("SA", repeat=3)] + ["SGS", "GSS", "SSG", "AGA", "GAS"]:
+            rows += [(kinds, v, "all", 0 if v == "whole" else -1, False, "plain", "p", 0) for v in ("whole", "attr+fn")]
+        rows += [(kinds, v, "all", -1, False, "plain", "p", 0) for kinds in ("SSS", "SAS") for v in ("multi", "mixed")]
     else:  # k == 4, thorough only
         rows += [("GGGG", "whole", "all", 0, True), ("GGGG", "attr+fn", "all", -1, True), ("GGGG", "multi", "all", -1, False)]
         rows += [("GSGS", "whole", "all", -1, True), ("SGAG", "mixed", "few", -1, False), ("SSSS", "mixed", "few", -1, False)]
         rows += [("GGGG", "whole", "two", -1, False, "prefix", "p"), ("SGSG", "attr:n", "two", -1, False, "plain", "d")]
+        rows += [("SSSS", "whole", "few", -1, False, "plain", "p", 0), ("SASG", "attr+fn", "few", -1, False, "plain", "p", 0)]
     return rows
 
 
@@ -765,8 +814,12 @@ def dag_cases(quick):
                 (s, t) for s in range(k) for t in range(k) if (s, t) not in edges and not acyclic(k, edges + [(s, t)])
             ]
             for row in plan:
-                kinds, variant, decl_mode, level, with_closing, names, par = (row + ("plain", "p"))[:7]
+                kinds, variant, decl_mode, level, with_closing, names, par, groups = _fill(row, 8, ("plain", "p", 1))
                 more = {} if names == "plain" else {"names": names}
+                if groups == 0:
+                    more["groups"] = 0
+                    if any(kinds[s] in "GT" or kinds[t] in "GT" for s, t in edges):
+                        continue  # a class group that is not instantiated can neither feed nor be fed
                 links = links_for(edges, variant, par)
                 if variant == "multi" and all(len(l["s"]) == 1 for l in links):
                     continue  # no node with two in-edges: same shapes as "attr+fn" / "whole+fn"
@@ -810,6 +863,17 @@ def _subsets(cands, sizes, need=None):
             yield links
 
 
+def _touches(links, nodes):
+    return any(l["t"] in nodes or any(n in nodes for n, _ in l["s"]) for l in links)
+
+
+# reference graphs of the nested families without a parser (for filters of the enumeration)
+REF = {
+    "hier": {"nodes": dict.fromkeys(("sa", "sb", "L0", "L1", "L2")), "nesting": [("L2", "L1"), ("L1", "L0")]},
+    "within": {"nodes": dict.fromkeys("abcHX"), "nesting": [("a", "H"), ("b", "H"), ("c", "H")]},
+}
+
+
 def hier_links(root_kind, variant, par="p"):
     how, fn = parse_variant(variant)
     down = [{"s": [[src, how]], "t": lvl, "p": p, "fn": fn} for src, p in (("sa", par + "a"), ("sb", par + "b")) for lvl in ("L0", "L1", "L2")]
@@ -831,18 +895,27 @@ def hier_cases(quick):
         plan = [("whole", (1, 2), ("GG", "SG"), 0), ("whole", (3,), ("GG",), 0), ("attr+fn", (1, 2), ("GG",), 0)]
         # prefix-related names around `root` (roo / root2); None-valued attribute of the components (S: subclass sources)
         plan += [("whole", (1, 2), ("GG",), -1, "prefix", "p", some), ("attr:n", (1,), ("SS",), -1, "plain", "d", some[:2])]
+        # instantiate_groups=False: the components are subclass arguments; a class group root stays configuration
+        # (only its class-typed child / grandchild are built and can be fed)
+        plan += [("whole", (1, 2), ("SS",), -1, "plain", "p", some, 0), ("attr+fn", (1,), ("SS",), -1, "plain", "p", some[:2], 0)]
     else:
         plan = [("whole", (1, 2, 3), ("GG", "SG", "GS", "SS"), 1), ("whole", (4, 5, 6), ("GG", "SG"), 0)]
         plan += [("attr+fn", (1, 2, 3), ("GG", "SG"), 1), ("attr+fn", (4, 5, 6), ("GG",), 0), ("attr", (1, 2, 3), ("GG",), 0)]
         plan += [("whole", (1, 2, 3), ("GG",), -1, "prefix", "p", decls)]
         plan += [(v, (1, 2), ("SS",), -1, "plain", "d", decls) for v in ("attr:n", "attr:n+fn")]
+        plan += [(v, (1, 2), ("SS", "SA"), 0, "plain", "p", decls, 0) for v in ("whole", "attr+fn")]
+        plan += [("whole", (3,), ("SS",), -1, "plain", "p", decls, 0)]
     for row in plan:
-        variant, sizes, src_list, level, names, par, decl_list = (row + ("plain", "p", decls))[:7]
+        variant, sizes, src_list, level, names, par, decl_list, groups = _fill(row, 8, ("plain", "p", decls, 1))
         more = {} if names == "plain" else {"names": names}
+        if groups == 0:
+            more["groups"] = 0
         for root_kind in ("G", "S"):
             down, up = hier_links(root_kind, variant, par)
             for links in _subsets(down, sizes):
                 for src_kinds in src_list:
+                    if groups == 0 and _touches(links, hier_groups(root_kind, src_kinds)):
+                        continue
                     for decl in decl_list:
                         for lo in link_orders(links, max(level, 0))[: 1 if level < 0 else None]:
                             yield {"layer": "hier", "root": root_kind, "src": src_kinds, "decl": decl, "links": lo, **more}
@@ -850,13 +923,20 @@ def hier_cases(quick):
     up_plan = [("whole", "plain", "p"), ("attr+fn", "plain", "p")]
     # ... with prefix-related names, and with a None / falsy attribute of a level as the source value
     up_plan += [("attr:n", "plain", "d")] if quick else [("whole", "prefix", "p"), ("attr:n", "plain", "d"), ("attr:n+fn", "plain", "d")]
-    for variant, names, par in up_plan:
-        new = (names, par) != ("plain", "p")
+    # ... and with instantiate_groups=False (sources: a subclass-argument root, or the class-typed child of a group root)
+    up_plan += [("whole", "plain", "p", 0)] if quick else [("whole", "plain", "p", 0), ("attr+fn", "plain", "p", 0)]
+    for row in up_plan:
+        variant, names, par, groups = _fill(row, 4, (1,))
+        new = (names, par, groups) != ("plain", "p", 1)
         more = {} if names == "plain" else {"names": names}
+        if groups == 0:
+            more["groups"] = 0
         for root_kind in ("G", "S"):
             down, up = hier_links(root_kind, variant, par)
             for links in _subsets(down + up, (1, 2) if quick or new else (1, 2, 3), need=lambda l: l["t"] in ("sa", "sb")):
-                for src_kinds in ("GG",) if quick or new or variant != "whole" else ("GG", "SG"):
+                if groups == 0 and (_touches(links, hier_groups(root_kind, "SS")) or not ref_acyclic(REF["hier"], links)):
+                    continue  # the mode only matters at the instantiate call: refusals are judged in the default mode
+                for src_kinds in ("SS",) if groups == 0 else ("GG",) if quick or new or variant != "whole" else ("GG", "SG"):
                     for decl in ((decls[0], decls[5]) if new else some) if quick else decls:
                         for lo in link_orders(links, 0 if quick else 2)[: 1 if new else None]:
                             yield {"layer": "hier", "root": root_kind, "src": src_kinds, "decl": decl, "links": lo, **more}
@@ -881,16 +961,24 @@ def within_cases(quick):
         # attribute of a sibling / of the holder / of the component as the source value
         plan += [("whole", (1, 2), (("S", "G"),), -1, "prefix", "p"), ("whole", (1,), (("S", "S"),), -1, "prefix-rev", "p")]
         plan += [("attr:n", (1, 2), (("S", "G"),), -1, "plain", "d"), ("attr:n+fn", (1,), (("A", "S"),), -1, "plain", "d")]
+        # instantiate_groups=False (argument and outside component class-typed)
+        plan += [("whole", (1, 2), (("S", "S"),), -1, "plain", "p", 0), ("attr+fn", (1,), (("A", "S"),), -1, "plain", "p", 0)]
     else:
         plan = [("whole", (1, 2, 3), (("S", "G"), ("A", "G"), ("S", "S")), 2), ("whole", (4,), (("S", "G"),), 0)]
         plan += [("attr+fn", (1, 2, 3), (("S", "G"), ("A", "S")), 0), ("attr", (1, 2), (("S", "G"),), 0)]
         plan += [("whole", (1, 2), (("S", "G"), ("A", "S")), 0, names, "p") for names in ("prefix", "prefix-rev")]
         plan += [(v, (1, 2), (("S", "S"),), -1, "plain", "d") for v in ("attr:n", "attr:n+fn", "attr:z")]
+        plan += [(v, (1, 2), (("S", "S"), ("A", "A")), 0, "plain", "p", 0) for v in ("whole", "attr+fn")]
+        plan += [("whole", (3,), (("S", "S"),), -1, "plain", "p", 0)]
     for row in plan:
-        variant, sizes, kind_list, level, names, par = (row + ("plain", "p"))[:6]
+        variant, sizes, kind_list, level, names, par, groups = _fill(row, 7, ("plain", "p", 1))
         more = {} if names == "plain" else {"names": names}
+        if groups == 0:
+            more["groups"] = 0
         sib, outer = within_links(variant, par)
         for links in _subsets(sib + outer, sizes):
+            if groups == 0 and not ref_acyclic(REF["within"], links):
+                continue  # the mode only matters at the instantiate call: refusals are judged in the default mode
             only_sib = all(l["t"] in "abc" and l["s"][0][0] in "abc" for l in links)
             if only_sib and names != "plain" and len(links) > 1:
                 continue  # the outside component takes no part: its name cannot matter beyond the single links
@@ -975,8 +1063,7 @@ def fault_cases(quick):
             outer = [l for l in outer if l["t"] in ("b", "H", "X")]
         for links in _subsets(sib + outer, (1,) if quick else (1, 2)):
             base = {"layer": "within", "h": "S", "x": "G", "decl": ["h", "sa"], "links": links, **more}
-            fam = {"nodes": dict.fromkeys("abcHX"), "nesting": [("a", "H"), ("b", "H"), ("c", "H")]}
-            if not ref_acyclic(fam, links) or _within_tags(links):
+            if not ref_acyclic(REF["within"], links) or _within_tags(links):
                 continue  # refused / known-weak shapes are judged by the plain family
             for fault in fault_points(base, "R"):
                 yield {**base, "fault": fault}
@@ -1052,6 +1139,22 @@ def run_histories(cases):
     return out
 
 
+def _default_mode(case):
+    return {k: v for k, v in case.items() if k != "groups"}
+
+
+def run_mode(case):
+    """One case without a fault.  A case run with instantiate_groups=False that deviates is compared with the same
+    case in the default mode (itself a valid case: the groups are then instantiated too): if that deviates as well,
+    the break does not depend on the mode and keeps its plain signature, so that the prefix
+    "instantiate_groups-false:" names only what the mode changes."""
+    devs, stats = run_e2e(case)
+    if devs and case.get("groups") == 0:
+        plain, _ = run_e2e(_default_mode(case))
+        devs = plain or devs
+    return devs, stats
+
+
 def run_history(case):
     """Replay of one case in a fresh process: for a fault history the plain comparison first, then the history -
     the same two observations as in run_histories, in an equally clean order."""
@@ -1059,7 +1162,8 @@ def run_history(case):
         plain, stats = run_e2e(_plain(case))
         if plain:
             return plain, stats
-    return run_e2e(case)
+        return run_e2e(case)
+    return run_mode(case)
 
 
 def e2e_worker(cases):
@@ -1067,12 +1171,14 @@ def e2e_worker(cases):
     out["expect_refuse"] = out["expect_instantiate"] = 0
     out["orders"], out["shapes"] = set(), set()
     out["aborted"] = out["aborted_late"] = out["fault_fired"] = out["fault_histories"] = 0
-    out["prefix_named"] = out["falsy_valued"] = 0
+    out["prefix_named"] = out["falsy_valued"] = out["no_groups"] = out["no_groups_with_group"] = 0
     F = _fx()
     faulty = [c for c in cases if "fault" in c]
-    results = [(c, run_e2e(c)) for c in cases if "fault" not in c] + (list(zip(faulty, run_histories(faulty))) if faulty else [])
+    results = [(c, run_mode(c)) for c in cases if "fault" not in c] + (list(zip(faulty, run_histories(faulty))) if faulty else [])
     for case, (devs, stats) in results:
         out["fault_histories"] += "fault" in case
+        out["no_groups"] += stats.get("no_groups", 0)
+        out["no_groups_with_group"] += bool(stats.get("no_groups", 0) and SETUP[case["layer"]](case, F)["groups"])
         out["prefix_named"] += "names" in case
         out["falsy_valued"] += any(how in FALSY_HOWS for l in case["links"] for _, how in l["s"])
         for k in ("aborted", "aborted_late", "fault_fired"):
@@ -1121,7 +1227,7 @@ def explore(ctx):
 
     # ---- layer 2
     keys = ("cases", "calls", "rejected", "instantiated", "nontrivial", "flagged", "expect_refuse", "expect_instantiate")
-    keys += ("fault_histories", "aborted", "aborted_late", "fault_fired", "prefix_named", "falsy_valued")
+    keys += ("fault_histories", "aborted", "aborted_late", "fault_fired", "prefix_named", "falsy_valued", "no_groups", "no_groups_with_group")
     e = dict.fromkeys(keys, 0)
     fam = {}
     for name, gen in FAMILIES:
@@ -1177,6 +1283,9 @@ def explore(ctx):
             "source_values": "whole object, attribute holding an object, None, 0, '', False, [], a falsy object; the "
             "None / falsy ones into parameters with a non-None default: dag k <= 2 all kinds x {alone, compute_fn, "
             "first of a multi-source compute_fn}, k = 3 / hier / within the None (and 0) rows of the plans",
+            "call_mode": "instantiate_classes(cfg) everywhere; instantiate_groups=False: dag k <= 2 all of {S,A}^2 x all "
+            "shapes, k = 3 every DAG x every declaration order for the kind rows of dag_plan (incl. a class group that "
+            "stays configuration); hier / within: link sets of <= 2 links between class-typed nodes",
             "fault_histories": "every constructor / compute_fn call of the first instantiation as fault point; dag: all "
             "DAGs on 2 components x all kinds x all shapes, on 3 components for the kind/shape rows of fault_plan"
             + ("" if quick else ", on 4 components GGGG") + "; hier: downward link sets of <= "
@@ -1202,6 +1311,11 @@ def explore(ctx):
     ctx.require(
         fam["dag"]["falsy_valued"] > 400 and fam["hier"]["falsy_valued"] > 50 and fam["within"]["falsy_valued"] > 50,
         "None / falsy source attribute values: > 400 dag, > 50 hier, > 50 within cases",
+    )
+    ctx.require(
+        fam["dag"]["no_groups"] > (600 if quick else 4000) and fam["hier"]["no_groups"] > 100 and fam["within"]["no_groups"] > 80
+        and fam["dag"]["no_groups_with_group"] > 10 and fam["hier"]["no_groups_with_group"] > 20,
+        "instantiate_groups=False: > 600 dag, > 100 hier, > 80 within cases planned in that mode, some with a class group left alone",
     )
     # guards on what the implementation was seen doing: they protect a PASS verdict only.  When the run reports a
     # violation anyway (a deviation that is not a known finding) they are moot and must not turn it into exit 2.
